@@ -145,7 +145,15 @@ class ConfigManager(object):
     def save(self, profile_name, config, serialize_type=TYPE_JSON, dest=None):
         outputdata = self.config_to_str(config, serialize_type)
         if dest is None:
-            StorageTools.writeProfileConfig(profile_name, outputdata)
+            # name the file after its format (load() detects the format by extension); a config
+            # left over in the other format would shadow or be shadowed by the one just written
+            ext = [e for e in self.MAP_EXT if self.MAP_EXT[e] == serialize_type][0]
+            StorageTools.writeProfileData(profile_name, "%s.%s" % (self.NAME_FILE_CONFIG, ext), outputdata)
+            for other in self.MAP_EXT:
+                stale = os.path.join(StorageTools.getStorageForProfile(profile_name),
+                                     "%s.%s" % (self.NAME_FILE_CONFIG, other))
+                if other != ext and os.path.isfile(stale):
+                    os.remove(stale)
         else:
             with open(dest, 'w') as outputfile:
                 outputfile.write(outputdata)
